@@ -987,6 +987,14 @@ func (w *World) AddAltLabels(tok int, rf *argmapper.Func) {
 }
 
 // RegisterInput enters a caller-supplied value into the ledger.
+// RegisterSpec makes a spec known to the world without building a Func for it
+// (its Go function is handed to the library raw).
+func (w *World) RegisterSpec(fs *FuncSpec) {
+	w.mu.Lock()
+	w.Specs[fs.ID] = fs
+	w.mu.Unlock()
+}
+
 func (w *World) RegisterInput(in Input) {
 	w.mu.Lock()
 	defer w.mu.Unlock()
